@@ -72,6 +72,8 @@ def simulate(program, deselected=None):
     ref.selected = []       # scenario instance names, run order
     ref.not_selected = []
     ref.steps = {}          # instance name -> [status names]  (None = not constrained)
+    ref.processed = {}      # instance name -> [bool]: step gets a match/result formatter event
+    ref.entered = {}        # (kind, name) -> bool: container hooks / formatter events fire
     ref.executed = set()    # instance names actually started
     ref.reasons = []        # why the run fails
     ref.hook_error_elems = []   # (kind, name) elements that must carry hook_error
@@ -148,6 +150,7 @@ def simulate(program, deselected=None):
         if not sel:
             ref.not_selected.append(name)
             ref.steps[name] = ["skipped"] * len(steps)
+            ref.processed[name] = [False] * len(steps)
             return False
         ref.selected.append(name)
         ref.executed.add(name)
@@ -156,6 +159,7 @@ def simulate(program, deselected=None):
         if dry:
             sts = ["undefined" if o == "undefined" else "untested" for o in outcomes]
             ref.steps[name] = sts
+            ref.processed[name] = [True] * len(steps)
             if "undefined" in sts:
                 ref.reasons.append("dry-run: undefined step in %s" % name)
             return False
@@ -166,6 +170,7 @@ def simulate(program, deselected=None):
             hook("before_tag", t, layer)
         hook("before_scenario", name, layer)
         sts = []
+        proc = []
         if layer.hook_failed or state["aborted"]:
             # body suppressed
             sts = ["untested"] * len(steps)
@@ -175,6 +180,8 @@ def simulate(program, deselected=None):
             running = True
             after_failure = False
             for s, o in zip(steps, outcomes):
+                if running:
+                    proc.append(True)
                 if running and o == "undefined":
                     # no definition: nothing to call, not even the step hooks
                     sts.append("undefined")
@@ -227,6 +234,7 @@ def simulate(program, deselected=None):
                     else:
                         sts.append("skipped")
         ref.steps[name] = sts
+        ref.processed[name] = (proc + [False] * len(steps))[:len(steps)]
         hook("after_scenario", name, layer)
         for t in inst["tags"]:
             hook("after_tag", t, layer)
@@ -304,6 +312,7 @@ def simulate(program, deselected=None):
         layer = Layer(kind, name)
         layers.append(layer)
         entered, is_open = container_entered(feature, rule)
+        ref.entered[(kind, name)] = entered
         if is_open and entered:
             ref.open_containers.add((kind, name))
         failed = False
